@@ -79,6 +79,7 @@ class C13Oracle(Oracle):
         self.dest_before = None
         self.saves = {}  # path -> (step args signature, bytes) for the overwrite clause
         self.kept = []  # (step, object snapshot after it) for every step that may legitimately change state
+        self.handed_out = {}  # id -> (mutable container returned by an earlier query, op name); kept alive for the run
 
     def fail(self, oracle, op, cls, detail):
         if detail.get("step") is None:
@@ -233,6 +234,21 @@ class C13Oracle(Oracle):
             if [(tuple(a), tuple(b)) for a, b in out.result] != [(tuple(a), tuple(b)) for a, b in want]:
                 self.fail("no-mutation", name, "concurrent-iterations-interfere",
                           {"step": brief, "pairs": repr(out.result)[:300], "entries": repr(recv.entries)[:300]})
+        if out.ok and kind == "query":
+            # "return new objects": a mutable container inside a query result belongs to the caller.
+            # It may not be one that an EARLIER call already handed out (a shared default / cached list
+            # which the first caller may have appended to).  Containers reachable from this call's own
+            # arguments are not judged (results may legitimately quote their arguments' elements).
+            mine = _mutables([out.args, out.kwargs], 4000)
+            for c in _mutables([out.result], 4000).values():
+                if id(c) in mine:
+                    continue
+                prev = self.handed_out.get(id(c))
+                if prev is not None and prev[0] is c:
+                    self.fail("no-mutation", name, "result-shares-container-with-earlier-result",
+                              {"step": brief, "earlier_op": prev[1], "container": repr(c)[:200]})
+                self.handed_out[id(c)] = (c, name)
+            run.stats["probe:query_result_freshness_checked"] += 1
         if out.ok and kind == "copy":
             r = out.result
             if r is recv or any(r is a for a in out.args) or any(r is a for a in out.kwargs.values()):
@@ -240,6 +256,29 @@ class C13Oracle(Oracle):
             outh = out.step.get("out")
             if _is_obj(r) and any(r is o for hh, o in w.heap.items() if hh != outh):
                 self.fail("no-mutation", name, "returned-existing-object", {"step": brief})
+
+
+def _mutables(roots, cap):
+    """id -> object for every list / dict / set / bytearray reachable from roots through lists, tuples,
+    dicts and sets (at most cap nodes are visited)."""
+    out = {}
+    seen = set()
+    stack = list(roots)
+    n = 0
+    while stack and n < cap:
+        o = stack.pop()
+        n += 1
+        if id(o) in seen:
+            continue
+        seen.add(id(o))
+        if isinstance(o, (list, dict, set, bytearray)):
+            out[id(o)] = o
+        if isinstance(o, dict):
+            stack.extend(o.keys())
+            stack.extend(o.values())
+        elif isinstance(o, (list, tuple, set, frozenset)):
+            stack.extend(o)
+    return out
 
 
 def _twin(run, oracle):
